@@ -712,14 +712,37 @@ def ndDeclsTCases : List GTCase → List String
   | .mk _ b :: rest => ndDecls b ++ ndDeclsTCases rest
 end
 
-/-- parameters and `var` declarations of a compiled function -/
-def ndLocals (f : GFunc) : List String := f.params.map (·.1) ++ ndDecls f.body
+mutual
+/-- Go's block scoping of `var` declarations, as far as the simulation and the scope rules need it: every `var x` is new
+    in its scope (`K` = the names visible at that point; a name may be declared again in a *sibling* block: the clauses of a
+    `switch`, the two branches of an `if`) and passes `ok` -/
+def sokB (ok : String → Bool) : List String → List GStmt → Bool
+  | _, [] => true
+  | K, s :: rest => sokStmtB ok K s && sokB ok (Goml.Dce.declScope s K) rest
+def sokStmtB (ok : String → Bool) : List String → GStmt → Bool
+  | K, .varDecl x _ _ => !K.contains x && ok x
+  | K, .ite _ t e => sokB ok K t && (match e with | some b => sokB ok K b | none => true)
+  | K, .loop b => sokB ok K b
+  | K, .switch _ cs d => sokCasesB ok K cs && (match d with | some b => sokB ok K b | none => true)
+  | K, .tswitch _ _ cs d => sokTCasesB ok K cs && (match d with | some b => sokB ok K b | none => true)
+  | _, _ => true
+def sokCasesB (ok : String → Bool) : List String → List GCase → Bool
+  | _, [] => true
+  | K, .mk _ b :: rest => sokB ok K b && sokCasesB ok K rest
+def sokTCasesB (ok : String → Bool) : List String → List GTCase → Bool
+  | _, [] => true
+  | K, .mk _ b :: rest => sokB ok K b && sokTCasesB ok K rest
+end
+
+/-- parameters pairwise distinct, every declaration new in its scope -/
+def scopedLocalsOK (f : GFunc) : Bool :=
+  decide ((f.params.map (·.1)).Nodup) && sokB (fun _ => true) (f.params.map (·.1)) f.body
 
 /-- the Go-side check of one function, on the model's own output for it -/
 def goLocalOK (env : Env) (file : AFile) (G : List String) (st : St) (f : AFn) : Bool :=
   let gf := (compileFn env st f).1
   let locals := Goml.Dce.localsOf gf
-  (ndLocals gf).Nodup && !locals.contains "_" &&
+  scopedLocalsOK gf && !locals.contains "_" &&
   (calleesA ((paramCtx f).map (·.1)) f.body).all (fun c => !locals.contains c && c != "_") &&
   -- no local is spelled like a function that may be used as a value
   (fnSigs file G).all (fun e => !locals.contains (vn e.1) && vn e.1 != "_")
